@@ -26,6 +26,7 @@ func checkC03(p *Prog, r *Report) {
 	c03MapRanges(p, r, s)
 	c03Ambient(p, r, s)
 	dispatcherRule(p, r, "C03.R7")
+	sessionOpenRule(p, r, "C03.R8")
 }
 
 // ---------------------------------------------------------------- R1 package state
